@@ -1,8 +1,484 @@
-"""placeholder"""
+"""Persistence operations inside sessions: save / export / re-import / crash-restart in
+three formats, with I/O fault injection at the disk seam; oracles of C14, C15, C16."""
+from __future__ import annotations
+
+import os
+import shutil
+from pathlib import Path
+
+import networkx as nx
+import numpy as np
+
+from . import env, observe, oracles
+from .seams import DiskSeam, InjectedOSError
+from .sim import StepTimeout
+
+
+def _axes(ndim):
+    return ["z", "y", "x"] if ndim == 4 else ["y", "x"]
+
+
 class IO:
-    def __init__(self, case): pass
-    def cleanup(self): pass
-    def op_save(self, sim, op): return None
-    def op_export(self, sim, op): return None
-    def op_reimport(self, sim, op): return None
-    def op_restart(self, sim, op): return None
+    def __init__(self, case: dict):
+        self.root = Path(env.SCRATCH_ROOT) / f"funtracks-dst-{os.getpid()}-{case.get('run_seed', 0) & 0xFFFFFFFF:x}"
+        if self.root.exists():
+            shutil.rmtree(self.root, ignore_errors=True)
+        self.root.mkdir(parents=True)
+        self.n = 0
+
+    def cleanup(self):
+        shutil.rmtree(self.root, ignore_errors=True)
+
+    def fresh(self, name) -> Path:
+        self.n += 1
+        d = self.root / f"{self.n:03d}-{name}"
+        d.mkdir()
+        return d
+
+    # ------------------------------------------------------------------ helpers
+    @staticmethod
+    def exportable(sim) -> bool:
+        tr = sim.tracks
+        if tr.graph.number_of_nodes() == 0:
+            return False
+        feats = tr.annotators.features
+        if tr.features.tracklet_key not in feats or tr.features.lineage_key not in feats:
+            return False
+        pk = tr.features.position_key
+        if tr.segmentation is not None and (pk not in feats or "area" not in feats):
+            return False
+        return True
+
+    def _write(self, sim, fmt, d: Path, subset=None, overwrite=False):
+        """The library call under test (write side). Returns description of what was written."""
+        from funtracks.import_export import export_to_csv, export_to_geff, save_tracks
+
+        tr = sim.tracks
+        if fmt == "internal":
+            save_tracks(tr, d / "tracks")
+        elif fmt == "csv":
+            export_to_csv(tr, d / "tracks.csv", node_ids=subset)
+        elif fmt == "csv_names":
+            export_to_csv(tr, d / "tracks.csv", node_ids=subset, use_display_names=True)
+        elif fmt == "csv_tif":
+            if tr.segmentation is not None:
+                export_to_csv(tr, d / "tracks.csv", node_ids=subset, export_seg=True, seg_path=d / "seg.tif")
+            else:
+                export_to_csv(tr, d / "tracks.csv", node_ids=subset)
+        elif fmt in ("geff2", "geff3"):
+            if overwrite:
+                # overwrite into a non-empty store: write once, then again with overwrite
+                export_to_geff(tr, d / "store.zarr", node_ids=subset, zarr_format=int(fmt[-1]))
+                export_to_geff(tr, d / "store.zarr", overwrite=True, node_ids=subset, zarr_format=int(fmt[-1]))
+            else:
+                export_to_geff(tr, d / "store.zarr", node_ids=subset, zarr_format=int(fmt[-1]))
+        else:
+            raise ValueError(fmt)
+
+    def _read(self, sim, fmt, d: Path, with_pos=True):
+        """The library call under test (read side): rebuild a SolutionTracks from files."""
+        import pandas as pd
+
+        from funtracks.import_export import import_from_geff, load_tracks, tracks_from_df
+
+        tr = sim.tracks
+        ndim = tr.ndim
+        if fmt == "internal":
+            return load_tracks(d / "tracks", solution=True)
+        if fmt in ("csv", "csv_tif"):
+            df = pd.read_csv(d / "tracks.csv", float_precision="round_trip")
+            nm = {"time": "t", "pos": _axes(ndim), "id": "id", "parent_id": "parent_id", "track_id": "track_id"}
+            return tracks_from_df(df, scale=None if tr.scale is None else list(tr.scale), node_name_map=nm)
+        if fmt == "csv_names":
+            df = pd.read_csv(d / "tracks.csv", float_precision="round_trip")
+            nm = {"id": "ID", "parent_id": "Parent ID"}
+            for key, feat in tr.features.items():
+                if feat["feature_type"] != "node":
+                    continue
+                nv = feat.get("num_values", 1)
+                if nv > 1:
+                    names = list(feat["value_names"]) if feat.get("value_names") is not None else [f"{feat.get('display_name', key)}_{i}" for i in range(nv)]
+                    cols = names
+                else:
+                    cols = feat.get("display_name", key)
+                std = key
+                if key == tr.features.time_key:
+                    std = "time"
+                elif key == tr.features.position_key:
+                    std = "pos"
+                elif key == tr.features.tracklet_key:
+                    std = "track_id"
+                elif key == tr.features.lineage_key:
+                    std = "lineage_id"
+                elif isinstance(tr.features.position_key, list) and key in tr.features.position_key:
+                    continue
+                if std == "score":
+                    continue
+                nm[std] = cols
+            if isinstance(tr.features.position_key, list):
+                nm["pos"] = [tr.features[k].get("display_name", k) for k in tr.features.position_key]
+            return tracks_from_df(df, scale=None if tr.scale is None else list(tr.scale), node_name_map=nm)
+        if fmt in ("geff2", "geff3"):
+            store = d / "store.zarr"
+            nm = {"time": tr.features.time_key, "track_id": tr.features.tracklet_key, "lineage_id": tr.features.lineage_key}
+            if with_pos or tr.segmentation is None:
+                pk = tr.features.position_key
+                nm["pos"] = list(pk) if isinstance(pk, list) else _axes(ndim)
+            for key, feat in tr.features.items():
+                if feat["feature_type"] == "node" and key not in (tr.features.time_key, tr.features.tracklet_key, tr.features.lineage_key, tr.features.position_key) and not (isinstance(tr.features.position_key, list) and key in tr.features.position_key):
+                    if key == "score" and not any("score" in dd for _, dd in tr.graph.nodes(data=True)):
+                        continue
+                    nm[key] = key
+            return import_from_geff(
+                store / "tracks", node_name_map=nm,
+                segmentation_path=(store / "segmentation") if tr.segmentation is not None else None,
+                scale=None if tr.scale is None else list(tr.scale),
+            )
+        raise ValueError(fmt)
+
+    def _armed(self, sim, op, d, fn, side):
+        """Run fn under the seam; with op['fault'] run a fault-free twin first to size k."""
+        fault = op.get("fault")
+        spec = None
+        if fault and fault.get("side", "w") == side:
+            twin = d if side == "r" else self.fresh("twin")
+            try:
+                with DiskSeam(twin) as s0:
+                    fn(twin)
+            except Exception:  # noqa: BLE001 - twin failing is the fault-free path's business
+                return None, None, "twin_failed"
+            n = s0.counts.get(fault["kind"], 0)
+            if side == "r":
+                pass
+            if n:
+                spec = {"kind": fault["kind"], "k": 1 + fault["k"] % n, "mode": "r" if side == "r" else "w"}
+        seam = DiskSeam(d, spec)
+        exc = None
+        val = None
+        try:
+            with seam:
+                val = fn(d)
+        except StepTimeout:
+            raise
+        except BaseException as e:  # noqa: BLE001
+            exc = e
+        if seam.fired:
+            sim.count("io_fault_" + seam.fired[0])
+        return val, exc, seam
+
+    def _subset(self, sim, op):
+        spec = op.get("subset")
+        if not spec:
+            return None
+        if spec == "all":
+            sim.count("io_subset_all")
+            return set(sim.tracks.graph.nodes)
+        cl = sim.node_classes()
+        out = set()
+        for sel in spec:
+            n = sim.pick_node(sel, cl)
+            if n is not None:
+                out.add(n)
+                sim.count("io_subset_" + sel[0])
+        return out or None
+
+    # ------------------------------------------------------------------ ops
+    def op_save(self, sim, op):
+        return self._export_like(sim, dict(op, fmt="internal"), kind="save")
+
+    def op_export(self, sim, op):
+        return self._export_like(sim, op, kind="export")
+
+    def _export_like(self, sim, op, kind):
+        if not self.exportable(sim):
+            return None
+        tr = sim.tracks
+        fmt = op["fmt"]
+        subset = self._subset(sim, op) if kind == "export" else None
+        d = self.fresh(f"{kind}-{fmt}")
+        pre = sim.pre["deep"] if sim.pre.get("deep") is not None else observe.deep(tr, len(sim.emissions))
+        _, exc, seam = self._armed(sim, op, d, lambda dd: self._write(sim, fmt, dd, subset, op.get("overwrite", False)), "w")
+        if seam == "twin_failed":
+            return None
+        out = {"resolved": {"fmt": fmt, "subset": None if subset is None else sorted(subset)}, "tags": [fmt] + (["subset"] if subset else []), "io": None if seam is None else len(seam.events)}
+        injected = isinstance(exc, InjectedOSError) or (exc is not None and seam.fired is not None and isinstance(exc, OSError))
+        if exc is None:
+            out["cls"] = "accepted"
+            sim.count(f"io_{fmt}_ok")
+        elif injected or (seam.fired is not None):
+            out["cls"] = "io_failed"
+            out["exc"] = type(exc).__name__
+        else:
+            out["cls"] = "crash"
+            out["exc"] = type(exc).__name__
+            out["msg"] = str(exc)[:300]
+        # C16: the object is unchanged whether the export succeeded or failed
+        if sim.active("C16"):
+            dd = observe.deep_diff(pre, observe.deep(tr, len(sim.emissions)))
+            if dd:
+                oracle = "C16.export" if exc is None else "C16.export_failed"
+                sim.violate("C16", oracle, f"{kind} {fmt}{' (failed with injected I/O error)' if exc is not None else ''} changed {dd[:2]}", op, out["tags"])
+                return out
+            sim.stat("C16.eval")
+            sim.case(kind, fmt, bool(subset), None if not seam.fired else seam.fired[0], observe.shape_hash(tr))
+        if out["cls"] == "crash":
+            if sim.active("C14"):
+                chan = "internal" if fmt == "internal" else ("csv" if fmt.startswith("csv") else "geff")
+                sim.violate("C14", f"C14.{chan}.raises", f"{kind} {fmt} raised {out['exc']}: {out.get('msg')}", op, out["tags"], out["exc"])
+                return out
+            sim.guard("export_crash", f"{fmt} {out['exc']} {out.get('msg')}")
+        if out["cls"] == "accepted":
+            if kind == "save":
+                sim.saves[fmt] = d
+            if sim.active("C15") and subset is not None:
+                self._check_subset(sim, op, fmt, d, subset, out)
+            if seam.fired is not None and sim.active("C14"):
+                # a write error was swallowed: the round trip must still hold
+                self._roundtrip_compare(sim, op, fmt, d, out, with_pos=True, why="after a swallowed write error")
+        return out
+
+    def op_reimport(self, sim, op):
+        if not self.exportable(sim):
+            return None
+        tr = sim.tracks
+        fmt = op["fmt"]
+        if fmt == "csv_names" and sim.opts.get("tier") != "thorough":
+            fmt = "csv"
+        d = self.fresh(f"reimport-{fmt}")
+        wp = op.get("with_pos", True)
+        out = {"resolved": {"fmt": fmt, "with_pos": wp}, "tags": [fmt] + ([] if wp else ["no_pos_map"])}
+        _, exc, seam = self._armed(sim, op, d, lambda dd: self._write(sim, fmt, dd), "w")
+        if seam == "twin_failed":
+            return None
+        if exc is not None:
+            if seam.fired is not None:
+                out["cls"] = "io_failed"
+                out["exc"] = type(exc).__name__
+                return out
+            if sim.active("C14"):
+                chan = "internal" if fmt == "internal" else ("csv" if fmt.startswith("csv") else "geff")
+                sim.violate("C14", f"C14.{chan}.raises", f"export {fmt} raised {type(exc).__name__}: {str(exc)[:200]}", op, out["tags"], type(exc).__name__)
+                out["cls"] = "crash"
+                return out
+            sim.guard("export_crash", f"{fmt} {type(exc).__name__} {exc}")
+        out["cls"] = "accepted"
+        sim.count(f"io_{fmt}_ok")
+        if sim.active("C14"):
+            self._roundtrip_compare(sim, op, fmt, d, out, with_pos=wp)
+        return out
+
+    def _d7_predicate(self, tr) -> bool:
+        """The import validation probes one pixel: the truncated, unscaled centroid of the
+        last node in graph order. Known finding D7 applies iff that pixel is not the node's."""
+        if tr.segmentation is None or tr.graph.number_of_nodes() == 0:
+            return False
+        n = list(tr.graph.nodes)[-1]
+        d = tr.graph.nodes[n]
+        pos = d.get(tr.features.position_key)
+        if pos is None:
+            return False
+        scale = [1.0] * tr.ndim if tr.scale is None else list(tr.scale)
+        coord = [int(d[tr.features.time_key])] + list(pos)
+        try:
+            px = tuple(int(c * (1 / s)) for c, s in zip(coord, scale))
+            return int(tr.segmentation[px]) != n
+        except (IndexError, ValueError):
+            return True
+
+    def _roundtrip_compare(self, sim, op, fmt, d, out, with_pos=True, why=""):
+        tr = sim.tracks
+        chan = "internal" if fmt == "internal" else ("csv" if fmt.startswith("csv") else "geff")
+        fault = op.get("fault")
+        ref = None
+        try:
+            ref = self._read(sim, fmt, d, with_pos)
+        except StepTimeout:
+            raise
+        except Exception as e:  # noqa: BLE001
+            if chan == "geff" and with_pos and isinstance(e, ValueError) and "Error testing seg id" in str(e):
+                tags = list(out["tags"]) + (["last_node_centroid_off_mask"] if self._d7_predicate(tr) else [])
+                sim.count("io_d7_predicate")
+                sim.violate("C14", "C14.geff.raises", f"re-import of a GEFF export raised ValueError: {str(e)[:160]}", op, tags, "ValueError")
+                return
+            sim.violate("C14", f"C14.{chan}.raises", f"re-import of the {fmt} export {why} raised {type(e).__name__}: {str(e)[:300]}", op, out["tags"], type(e).__name__)
+            return
+        res = compare_tracks(tr, ref, chan, fmt, with_pos)
+        for o, m in res:
+            sim.violate("C14", o, f"{fmt} round trip {why}: {m}", op, out["tags"])
+            return
+        sim.stat("C14.eval")
+        g = tr.graph
+        tk = tr.features.time_key
+        nontrivial = any(g.out_degree(n) >= 2 for n in g.nodes) or any(g.nodes[v][tk] - g.nodes[u][tk] > 1 for u, v in g.edges)
+        if nontrivial:
+            sim.case(fmt, with_pos, sim.world["pos_mode"], sim.world["seg"], sim.world["scale"] is None, observe.shape_hash(tr))
+        # read-side fault: the import may fail, it may never hand back different data
+        if fault and fault.get("side") == "r":
+            got, exc, seam = self._armed(sim, op, d, lambda dd: self._read(sim, fmt, dd, with_pos), "r")
+            if seam in (None, "twin_failed") or seam.fired is None:
+                return
+            if exc is None:
+                res = compare_tracks(tr, got, chan, fmt, with_pos)
+                for o, m in res:
+                    sim.violate("C14", o, f"{fmt} import under an injected read error returned different data: {m}", op, out["tags"] + ["read_fault"])
+                    return
+                sim.count("io_read_fault_survived")
+            else:
+                sim.count("io_read_fault_raised")
+            sim.stat("C14.eval")
+
+    def op_restart(self, sim, op):
+        """Crash-restart: acknowledged save, drop the object, rebuild from the files only."""
+        if not self.exportable(sim) or sim.restarts >= 2:
+            return None
+        fmt = op["fmt"]
+        tr = sim.tracks
+        d = self.fresh(f"restart-{fmt}")
+        out = {"resolved": {"fmt": fmt}, "tags": [fmt]}
+        try:
+            self._write(sim, fmt, d)
+            if fmt.startswith("geff") and self._d7_predicate(tr):
+                new = self._read(sim, fmt, d, with_pos=False)
+            else:
+                new = self._read(sim, fmt, d, with_pos=True)
+        except StepTimeout:
+            raise
+        except Exception as e:  # noqa: BLE001
+            sim.guard("restart_failed", f"{fmt} {type(e).__name__} {str(e)[:120]}")
+        if sim.active("C14"):
+            chan = "internal" if fmt == "internal" else ("csv" if fmt.startswith("csv") else "geff")
+            for o, m in compare_tracks(tr, new, chan, fmt, True):
+                sim.violate("C14", o, f"restart from {fmt}: {m}", op, out["tags"])
+                return out
+            sim.stat("C14.eval")
+        sim.adopt(new)
+        sim.count("io_restart_" + ("geff" if fmt.startswith("geff") else fmt))
+        out["cls"] = "accepted"
+        return out
+
+    # ------------------------------------------------------------------ C15
+    def _check_subset(self, sim, op, fmt, d, subset, out):
+        import pandas as pd
+
+        tr = sim.tracks
+        g = tr.graph
+        want = set(subset)
+        for n in subset:
+            want |= nx.ancestors(g, n)
+        want_edges = set(g.subgraph(want).edges)
+        tags = out["tags"]
+        if fmt.startswith("csv"):
+            df = pd.read_csv(d / "tracks.csv")
+            idc, pc = ("ID", "Parent ID") if fmt == "csv_names" else ("id", "parent_id")
+            ids = [int(x) for x in df[idc]]
+            if sorted(ids) != sorted(want):
+                sim.violate("C15", "C15.nodes", f"{fmt} subset {sorted(subset)} exported nodes {sorted(ids)}, expected selection+ancestors {sorted(want)}", op, tags)
+                return
+            edges = {(int(p), int(i)) for p, i in zip(df[pc], df[idc]) if not pd.isna(p)}
+            if edges != want_edges:
+                sim.violate("C15", "C15.edges", f"{fmt} subset exported links {sorted(edges)}, expected {sorted(want_edges)}", op, tags)
+                return
+            if fmt == "csv_tif" and tr.segmentation is not None:
+                import tifffile
+
+                img = tifffile.imread(d / "seg.tif")
+                ref = np.zeros(tr.segmentation.shape, dtype=np.int64)
+                for n in want:
+                    ref[tr.segmentation == n] = tr.get_track_id(n)
+                if img.shape != ref.shape or not np.array_equal(img.astype(np.int64), ref):
+                    sim.violate("C15", "C15.seg", f"{fmt} subset: exported label image is not 'masks of exactly the exported nodes (relabelled by track id), background elsewhere'", op, tags)
+                    return
+        else:
+            import zarr
+
+            grp = zarr.open_group(d / "store.zarr" / "tracks", mode="r")
+            ids = [int(x) for x in np.asarray(grp["nodes/ids"][:]).tolist()]
+            if sorted(ids) != sorted(want):
+                sim.violate("C15", "C15.nodes", f"{fmt} subset {sorted(subset)} exported nodes {sorted(ids)}, expected selection+ancestors {sorted(want)}", op, tags)
+                return
+            eids = np.asarray(grp["edges/ids"][:])
+            edges = {(int(a), int(b)) for a, b in eids.reshape(-1, 2).tolist()}
+            if edges != want_edges:
+                sim.violate("C15", "C15.edges", f"{fmt} subset exported edges {sorted(edges)}, expected {sorted(want_edges)}", op, tags)
+                return
+            if tr.segmentation is not None:
+                sg = np.asarray(zarr.open_array(d / "store.zarr" / "segmentation", mode="r")[:])
+                ref = np.where(np.isin(tr.segmentation, sorted(want)), tr.segmentation, 0)
+                if sg.shape != ref.shape or not np.array_equal(sg, ref):
+                    sim.violate("C15", "C15.seg", f"{fmt} subset: exported segmentation is not the original masked to exactly the exported nodes", op, tags)
+                    return
+        sim.stat("C15.eval")
+        sim.case(fmt, observe.shape_hash(tr), tuple(sorted(subset)))
+        if want != set(subset):
+            sim.count("io_subset_needed_ancestors")
+
+
+def _num_equal(a, b) -> bool:
+    return oracles._same_exact(a, b)
+
+
+def compare_tracks(a, b, chan: str, fmt: str, with_pos: bool = True) -> list:
+    """C14: a = original, b = re-imported. Returns list of (oracle, message)."""
+    pre = f"C14.{chan}"
+    ga, gb = a.graph, b.graph
+    if set(ga.nodes) != set(gb.nodes):
+        return [(pre + ".nodes", f"node sets differ: only in original {sorted(set(ga.nodes) - set(gb.nodes))[:5]}, only in import {sorted(set(gb.nodes) - set(ga.nodes))[:5]}")]
+    if set(ga.edges) != set(gb.edges):
+        return [(pre + ".edges", f"edge sets differ: only in original {sorted(set(ga.edges) - set(gb.edges))[:5]}, only in import {sorted(set(gb.edges) - set(ga.edges))[:5]}")]
+    out = []
+    loaded_pos = with_pos or a.segmentation is None or chan != "geff"
+    for n in ga.nodes:
+        if int(a.get_time(n)) != int(b.get_time(n)):
+            out.append((pre + ".attrs", f"time of node {n}: {a.get_time(n)} vs {b.get_time(n)}"))
+        pa = [float(x) for x in a.get_position(n)]
+        pb = [float(x) for x in b.get_position(n)]
+        if loaded_pos:
+            if pa != pb:
+                out.append((pre + ".attrs", f"position of node {n}: {pa} vs {pb}"))
+        elif not all(abs(x - y) <= 1e-9 * max(1, abs(x)) for x, y in zip(pa, pb)) or len(pa) != len(pb):
+            out.append((pre + ".attrs", f"recomputed position of node {n}: {pa} vs {pb}"))
+        if a.get_track_id(n) != b.get_track_id(n):
+            out.append((pre + ".attrs", f"track id of node {n}: {a.get_track_id(n)} vs {b.get_track_id(n)}"))
+        if out:
+            return out[:1]
+    # features that were loaded rather than recomputed
+    if chan in ("internal", "geff") or fmt == "csv_names":
+        skip = {a.features.time_key, a.features.tracklet_key}
+        pk = a.features.position_key
+        skip |= set(pk) if isinstance(pk, list) else {pk}
+        for key, feat in a.features.items():
+            if key in skip:
+                continue
+            if fmt == "csv_names" and key == "score":
+                continue
+            bkey = key
+            if feat["feature_type"] == "node":
+                for n in ga.nodes:
+                    va, vb = a.get_node_attr(n, key), b.get_node_attr(n, bkey)
+                    if not _num_equal(va, vb):
+                        return [(pre + ".attrs", f"node feature {key} of node {n}: {va!r} vs {vb!r}")]
+            elif chan != "csv":
+                for e in ga.edges:
+                    va, vb = a.get_edge_attr(e, key), b.get_edge_attr(e, bkey)
+                    if not _num_equal(va, vb):
+                        return [(pre + ".attrs", f"edge feature {key} of edge {e}: {va!r} vs {vb!r}")]
+    if chan in ("internal", "geff") and a.segmentation is not None:
+        if b.segmentation is None or a.segmentation.shape != b.segmentation.shape or not np.array_equal(a.segmentation, np.asarray(b.segmentation)):
+            return [(pre + ".seg", "segmentation arrays differ")]
+        if chan == "internal" and a.segmentation.dtype != b.segmentation.dtype:
+            return [(pre + ".seg", f"segmentation dtype {a.segmentation.dtype} vs {b.segmentation.dtype}")]
+    if chan == "internal":
+        sa = None if a.scale is None else [float(x) for x in a.scale]
+        sb = None if b.scale is None else [float(x) for x in b.scale]
+        if sa != sb:
+            return [(pre + ".scale", f"scale {sa} vs {sb}")]
+        ra = {k: {kk: observe.norm(vv) for kk, vv in dict(f).items()} for k, f in a.features.items()}
+        rb = {k: {kk: observe.norm(vv) for kk, vv in dict(f).items()} for k, f in b.features.items()}
+        if ra != rb:
+            ks = [k for k in set(ra) | set(rb) if ra.get(k) != rb.get(k)]
+            return [(pre + ".registry", f"feature registry differs for {sorted(ks)[:4]}")]
+        spa = (a.features.time_key, observe.norm(a.features.position_key), a.features.tracklet_key, a.features.lineage_key)
+        spb = (b.features.time_key, observe.norm(b.features.position_key), b.features.tracklet_key, b.features.lineage_key)
+        if spa != spb:
+            return [(pre + ".registry", f"special keys {spa} vs {spb}")]
+    return []
